@@ -597,3 +597,37 @@ def huge_integer_division(ai: int, bi: int) -> bool:
         except ElementPathError:
             pass
     return True
+
+
+# --- round 5: the sign of a zero result of the rounding functions on doubles/floats (F&O 4.4: negative zero for a negative-zero argument, and
+#     for ceiling / round / round-half-to-even of a negative argument that rounds to zero; abs(-0.0) is +0.0) -----------------------------------
+
+F1X = 'elementpath/xpath1/_xpath1_functions.py'
+
+
+@ob(budget=200, bound='x = k/4 as xs:double and as xs:float, |k| <= 8, plus negative zero (index chosen by the solver, the value concrete on each path): floor, '
+                      'ceiling, round, round-half-to-even and abs return the IEEE value AND the sign of zero F&O specifies, with the type of the argument',
+    funcs=[F1X + ':evaluate__ceiling_and_floor_functions', F1X + ':evaluate__round', F1X + ':evaluate__abs'])
+def rounding_functions_keep_zero_sign(k: int, negzero: bool, single: bool) -> bool:
+    """
+    pre: -8 <= k <= 8
+    post: _
+    """
+    k = [j for j in range(-8, 9) if j == k][0]
+    x = -0.0 if (negzero and k == 0) else k / 4
+    neg = math.copysign(1.0, x) < 0
+    a = _XsFloat(x) if single else x
+
+    def same(r, want, negative_zero):
+        if not isinstance(r, float) or (single and not isinstance(r, _XsFloat)):
+            return False
+        if r != want:
+            return False
+        return r != 0 or (math.copysign(1.0, r) < 0) == negative_zero
+
+    half_up = math.floor(x + 0.5)
+    fl = math.floor(x)
+    half_even = fl if x - fl < 0.5 else fl + 1 if x - fl > 0.5 else (fl if fl % 2 == 0 else fl + 1)
+    return (same(_ev('floor', a=a), float(math.floor(x)), neg) and same(_ev('ceil', a=a), float(math.ceil(x)), neg)
+            and same(_ev('round', a=a), float(half_up), neg) and same(_ev('rhe', a=a), float(half_even), neg)
+            and same(_ev('abs', a=a), abs(x), False))
